@@ -18,6 +18,8 @@ EpochHasTx(ep) == \E i \in 1..Len(ep.blocks) : FlatTxs(ep.blocks[i]) # <<>>
 NewEpoch == /\ ~done /\ Len(arch) < MaxEpochs
             /\ (IF arch = <<>> THEN TRUE ELSE EpochHasTx(CurEpoch))
             /\ \E e \in EpochSet : (IF arch = <<>> THEN TRUE ELSE e > CurEpoch.epoch)
+                 \* leave enough larger epoch numbers for the walk to reach MinEpochs
+                 /\ Cardinality({x \in EpochSet : x > e}) + Len(arch) + 1 >= MinEpochs
                  /\ arch' = Append(arch, [epoch |-> e, blocks |-> <<>>])
             /\ UNCHANGED <<nsig, done>>
 \* a block: slot = previous slot + gap (gap > 1 leaves skipped slots); the first block of epoch 0 is slot 0;
